@@ -128,6 +128,15 @@ def compile_(kind, st, dname):
         return "raise " + type(e).__name__, {}
 
 
+def cache_key(kind, st):
+    """the statement's cache key as the engine's compiled cache would see it (structure + extracted literal values)"""
+    el = st.statement if kind == "query" else st
+    ck = el._generate_cache_key()
+    if ck is None:
+        return None
+    return ck.key, repr([bp.value for bp in ck.bindparams])
+
+
 def _names(kind, st):
     if kind == "query":
         skip = getattr(st, "_memoized_keys", ())
@@ -172,6 +181,7 @@ class Driver:
         self.kind = kind
         self.dialects = dialects
         self.expected = {}          # (descr, dialect) -> (sql, params) of the statement built afresh in one go
+        self.expected_key = {}      # descr -> cache key of the statement built afresh
         self.compiles = 0
 
     def fresh(self, descr, dname):
@@ -184,9 +194,31 @@ class Driver:
             v = self.expected[k] = compile_(self.kind, st, dname)
         return v
 
+    def fresh_key(self, descr):
+        v = self.expected_key.get(descr)
+        if v is None:
+            st = root(self.kind)
+            for m in descr:
+                st = apply(self.kind, st, m)
+            v = self.expected_key[descr] = (cache_key(self.kind, st),)
+        return v[0]
+
+    def _check_key(self, i):
+        """a compiled node's cache key (what an engine's compiled cache would look it up by) is that of its own derivation - not, e.g.,
+        a memoized key inherited from the statement it was derived from"""
+        if self.pickled[i]:
+            return None         # an unpickled statement owns copies of the tables: its key legitimately differs
+        got = cache_key(self.kind, self.nodes[i])
+        exp = self.fresh_key(self.descr[i])
+        if got != exp:
+            return "node %d %s has cache key %r, the same derivation built afresh has %r" % (
+                i + 1, "/".join(self.descr[i]) or "(root)", got, exp)
+        return None
+
     def reset(self, state):
         self.nodes = [root(self.kind)]
         self.descr = [()]
+        self.pickled = [False]
         self.first = {}
 
     def _check_node(self, i, dname):
@@ -220,6 +252,7 @@ class Driver:
                 return "generative method %s returned the statement it was called on" % act["x"]
             self.nodes.append(new)
             self.descr.append(self.descr[p] + (act["x"],))
+            self.pickled.append(self.pickled[p])
         elif a == "Copy":
             p = act["n"] - 1
             new = do_copy(kind, self.nodes[p], act["x"])
@@ -227,6 +260,7 @@ class Driver:
                 return "%s returned the same object" % act["x"]
             self.nodes.append(new)
             self.descr.append(self.descr[p])
+            self.pickled.append(self.pickled[p] or act["x"] == "pickle")
         elif a == "Compile":
             i = act["n"] - 1
             st = self.nodes[i]
@@ -248,6 +282,9 @@ class Driver:
                     m = self._check_node(i, d)
                     if m:
                         return m
+                m = self._check_key(i)
+                if m:
+                    return m
         return None
 
     def finish(self, state):
@@ -256,4 +293,7 @@ class Driver:
                 m = self._check_node(i, d)
                 if m:
                     return "drain: " + m
+            m = self._check_key(i)
+            if m:
+                return "drain: " + m
         return None
